@@ -19,6 +19,8 @@ TNext ==
     \/ (Is("Create") /\ Create(Ev.by, Ev.u, Ev.arg, Ev.pool, IF "mig" \in DOMAIN Ev THEN Ev.mig = 1 ELSE TRUE))
     \/ (Is("CreateRet") /\ ByOK(Ev.by) /\ NoOp)
     \/ (Is("Start") /\ Start(Ev.u, Ev.arg, Ev.n) /\ ("sp16" \in DOMAIN Ev => Aligned(Ev.sp16)))
+    \* two run slices of one unit overlap: the unit runs on two streams at once (never)
+    \/ (Is("Overlap") /\ FALSE /\ NoOp)
     \/ (Is("Ctx") /\ CtxKept(Ev.u, Ev.regs, Ev.mxcsr, Ev.x87) /\ NoOp)
     \/ (Is("Finish") /\ Finish(Ev.u))
     \/ (Is("Exit") /\ Finish(Ev.u))
